@@ -116,6 +116,22 @@ MUTANTS = [
     ("c18-embed-drops-readme", "cmd/hidi/config.go", "//go:embed hidi-config/factory/README\n", "", ["C18"]),
     ("c18-user-placeholder-restored", "cmd/hidi/config.go", "\t// create device blacklist.txt if does not exist.", "\t_ = os.WriteFile(configDir+\"/user/README.md\", []byte(\"see factory\"), 0o666)\n\t// create device blacklist.txt if does not exist.", ["C18"]),
     ("c09-hidi-zero-rate", "cmd/hidi/config.go", "if rawConfig.HIDI.DiscoveryRate <= 0 {", "if rawConfig.HIDI.DiscoveryRate < 0 {", ["C09"]),
+    ("c16-cleanup-unlocked", EVS, "\td.eventProcessMutex.Lock()\n\tfor evcode := range d.noteTracker {", "\tfor evcode := range d.noteTracker {", ["C16"]),
+    ("c16-led-reads-unlocked", "internal/pkg/midi/device/open_rgb.go", "\t\td.eventProcessMutex.Lock()\n\t\toffset := int(d.semitone) + int(d.octave)*12", "\t\toffset := int(d.semitone) + int(d.octave)*12\n\t\td.eventProcessMutex.Lock()", ["C16"]),
+    ("c16-external-tracker-unlocked", EVS, "\t\t\tcase midi.NoteOff:\n\t\t\t\td.externalTrackerMutex.Lock()\n\t\t\t\tdelete(d.externalNoteTracker[ev.Channel()], ev.Note())\n\t\t\t\td.externalTrackerMutex.Unlock()", "\t\t\tcase midi.NoteOff:\n\t\t\t\tdelete(d.externalNoteTracker[ev.Channel()], ev.Note())", ["C16"]),
+    ("c16-led-loop-ignores-cancel", "internal/pkg/midi/device/open_rgb.go", "\t\tcase <-ctx.Done():\n\t\t\tbreak root\n\t\tdefault:\n\t\t\tbreak\n\t\t}\n\t\ttime.Sleep(time.Millisecond * 10)", "\t\tcase <-ctx.Done():\n\t\t\ttime.Sleep(time.Second * 4)\n\t\t\tbreak root\n\t\tdefault:\n\t\t\tbreak\n\t\t}\n\t\ttime.Sleep(time.Millisecond * 10)", ["C16"]),
+    ("c16-midi-goroutine-leaks", EVS, "\t\tcase <-ctx.Done():\n\t\t\tbreak root\n\t\tcase ev := <-d.midiIn:", "\t\tcase <-ctx.Done():\n\t\t\tgo func() {\n\t\t\t\tfor range d.midiIn {\n\t\t\t\t}\n\t\t\t}()\n\t\t\tbreak root\n\t\tcase ev := <-d.midiIn:", ["C16"]),
+    ("c17-black-keys-wrong", "internal/pkg/midi/device/open_rgb.go", "\t\t\t\tcase 1, 3, 6, 8, 10: // black keys", "\t\t\t\tcase 1, 3, 5, 8, 10: // black keys", ["C17"]),
+    ("c17-active-ignores-offset", "internal/pkg/midi/device/open_rgb.go", "\t\t\tnote := noteAndChannel[0] - byte(offset)\n", "\t\t\tnote := noteAndChannel[0]\n", ["C17"]),
+    ("c17-range-off-by-one", "internal/pkg/midi/device/open_rgb.go", "\t\t\tif x < 0 || x > 127 {\n\t\t\t\tcontinue", "\t\t\tif x < 0 || x > 128 {\n\t\t\t\tcontinue", ["C17"]),
+    ("c17-no-red-on-disconnect", "internal/pkg/midi/device/open_rgb.go", "\tc.UpdateLEDs(index, ledArray)\n\tlog.Info(fmt.Sprintf(\"[OpenRGB] device thread exited\")", "\tlog.Info(fmt.Sprintf(\"[OpenRGB] device thread exited\")", ["C17"]),
+    ("c17-octave-one-like-more", "internal/pkg/midi/device/open_rgb.go", "\t\t\tif d.octave == 1 {\n", "\t\t\tif d.octave == 1 && false {\n", ["C17"]),
+    ("c17-mapping-end-not-shown", "internal/pkg/midi/device/open_rgb.go", "\t\tif d.mapping == 0 {\n\t\t\tsetActionLed(config.MappingDown, white1)", "\t\tif d.mapping == 0 && false {\n\t\t\tsetActionLed(config.MappingDown, white1)", ["C17"]),
+    ("c17-panic-keeps-external", DEV, "\td.externalNoteTracker = inmap\n", "\t_ = inmap\n", ["C17"]),
+    ("c17-velocity-zero-on", EVS, "if len(ev) > 2 && ev[2] == 0 { // Note On with velocity 0 is a Note Off", "if len(ev) > 2 && ev[2] == 0 && false { // Note On with velocity 0 is a Note Off", ["C17"]),
+    ("c17-current-channel-not-special", "internal/pkg/midi/device/open_rgb.go", "\t\t\t\tledArray[id] = d.config.OpenRGB.Colors.ActiveExternal", "\t\t\t\tledArray[id] = channelColors[d.channel]", ["C17"]),
+    ("c17-led0-fallback", "internal/pkg/midi/device/open_rgb.go", "\t\tid, ok := indexMap[code]\n\t\tif !ok {\n\t\t\treturn\n\t\t}\n\t\tledArray[id] = color", "\t\tid := indexMap[code]\n\t\tledArray[id] = color", ["C17"]),
+    ("c17-semitone-not-in-offset", "internal/pkg/midi/device/open_rgb.go", "\t\toffset := int(d.semitone) + int(d.octave)*12", "\t\toffset := int(d.octave) * 12", ["C17"]),
     ("c14-check-before-insert", EVS,
      "\t\td.keyTracker[ie.Event.Code] = struct{}{}\n\t\tok := d.checkExitSequence()", "\t\tok := d.checkExitSequence()\n\t\td.keyTracker[ie.Event.Code] = struct{}{}", ["C14"]),
     ("c14-not-swallowed", EVS, "\t\t\t// this simple hack prevents from hanging\n\t\t\treturn", "\t\t\t// this simple hack prevents from hanging", ["C14"]),
